@@ -33,12 +33,12 @@ type convSpec struct {
 // oracles need to know about it.
 type convBuilt struct {
 	stream     []byte
-	exp        []expect // reply to every command, in order (greeting banner excluded)
+	exp        []expect  // reply to every command, in order (greeting banner excluded)
 	cmdSpans   []cmdSpan // every command line of the stream
-	msgStart   []int    // offset where message k's first octet (DATA body / first BDAT line) begins
-	completeAt []int    // offset just after message k's end marker / last octet of its LAST chunk
-	finalIdx   []int    // index in exp of message k's first final reply
-	finalFrom  []int    // offset after the command line whose processing ends with the final reply (DATA / BDAT .. LAST)
+	msgStart   []int     // offset where message k's first octet (DATA body / first BDAT line) begins
+	completeAt []int     // offset just after message k's end marker / last octet of its LAST chunk
+	finalIdx   []int     // index in exp of message k's first final reply
+	finalFrom  []int     // offset after the command line whose processing ends with the final reply (DATA / BDAT .. LAST)
 	nfinal     int
 	want       [][]byte // what the backend must read for message k
 	boundaries []int    // offsets between chunks (after a non-LAST chunk's payload) for message k=0
@@ -161,9 +161,14 @@ func genConvSpec(t *rapid.T) convSpec {
 // ---- cut points ----
 
 type c07Case struct {
-	Conv  convSpec `json:"conv"`
-	Cut   int      `json:"cut"`   // number of octets of the client stream that arrive
-	Fault string   `json:"fault"` // "eof" (clean half-close) or "abort" (reset after the server consumed the prefix)
+	Conv convSpec `json:"conv"`
+	Cut  int      `json:"cut"` // number of octets of the client stream that arrive
+	// Fault: "eof" (clean half-close), "eof-with-data" (clean half-close that
+	// the server's connection reports together with the last octets: one
+	// Read returns n > 0 and io.EOF, as crypto/tls does when the close alert
+	// arrives with the last record) or "abort" (reset after the server
+	// consumed the prefix)
+	Fault string `json:"fault"`
 }
 
 type cutObs struct {
@@ -191,6 +196,7 @@ func runCut(b convBuilt, s convSpec, cut int, fault string, cfg harness.Config, 
 			cfg.MaxMessageBytes = int64(longest + s.Limit - 1)
 		}
 	}
+	cfg.EOFWithData = fault == "eof-with-data"
 	script.LMTPSession = s.Mode == 2
 	if script.DefaultData == nil {
 		script.DefaultData = &harness.DataPlan{Read: harness.ReadPlan{Limit: -1}, Honest: true}
@@ -203,7 +209,11 @@ func runCut(b convBuilt, s convSpec, cut int, fault string, cfg harness.Config, 
 		o.incon = "server not idle after connect: " + st
 		return o
 	}
-	w.Send(b.stream[:cut])
+	if fault == "eof-with-data" {
+		w.SendFinal(b.stream[:cut])
+	} else {
+		w.Send(b.stream[:cut])
+	}
 	if fault == "abort" {
 		if st := w.WaitQuiet(); st == harness.QWatchdog {
 			o.incon = "watchdog before abort"
@@ -291,12 +301,12 @@ func c07Run(c c07Case) Verdict {
 			if rec.Err == nil {
 				return failf("no-terminal-error", "message %d: reader ended without EOF or error", k)
 			}
-			if complete && c.Fault == "eof" {
+			if complete && c.Fault != "abort" {
 				return failf("complete-not-delivered", "message %d was complete at %d (cut %d) but the reader failed with %q", k, b.completeAt[k], c.Cut, rec.ErrStr)
 			}
 		}
 	}
-	if c.Fault == "eof" {
+	if c.Fault != "abort" {
 		if o.perr != nil {
 			return failf("reply-syntax", "replies do not parse: %v (%s)", o.perr, q(o.rawOut))
 		}
@@ -453,7 +463,7 @@ func init() {
 
 func TestC07(t *testing.T) {
 	registerAll()
-	st.Rule = "cases = (conversation of 1-2 DATA/BDAT messages in SMTP/LMTP mode, cut offset, fault mode eof|abort): every cut offset of every generated conversation is run; plus abandoning actions (RSET, QUIT, new greeting, EOF, idle timeout, an over-limit chunk followed by a fitting LAST chunk) at chunk boundaries; non-trivial = the cut or action falls strictly inside a message (after its first octet, before completion); distinct = hash of (conversation, cut, fault)"
+	st.Rule = "cases = (conversation of 1-2 DATA/BDAT messages in SMTP/LMTP mode, cut offset, fault mode eof|eof reported together with the last octets|abort): every cut offset of every generated conversation is run; plus abandoning actions (RSET, QUIT, new greeting, EOF, idle timeout, an over-limit chunk followed by a fitting LAST chunk) at chunk boundaries; non-trivial = the cut or action falls strictly inside a message (after its first octet, before completion); distinct = hash of (conversation, cut, fault)"
 	if !regress(t, "C07") {
 		return
 	}
@@ -466,7 +476,7 @@ func TestC07(t *testing.T) {
 		rapid.Check(t, func(rt *rapid.T) {
 			spec := genConvSpec(rt)
 			b := buildConv(spec)
-			fault := rapid.SampledFrom([]string{"eof", "abort"}).Draw(rt, "fault")
+			fault := rapid.SampledFrom([]string{"eof", "abort", "eof-with-data"}).Draw(rt, "fault")
 			for cut := 0; cut <= len(b.stream); cut++ {
 				v := c07Cuts.eval(c07Case{Conv: spec, Cut: cut, Fault: fault})
 				if v.Fail != "" {
